@@ -140,11 +140,17 @@ fn main() {
 		// in half of the histories the funded second account is the THIRD path: the account in
 		// between never holds anything (a gap in the funded account paths)
 		let fa: &'static str = if r.p.coin() { "a2" } else { "a1" };
+		// ... and in a third of them BOTH further accounts hold outputs
+		let both = r.p.chance(1, 3);
 		// ---- activity of wallet 0 (and its counterparty 1)
 		let n_blocks = r.p.range(4, 9);
 		for k in 0..n_blocks {
 			if k == n_blocks / 2 {
 				r.s.with(0, |b, _| owner::set_active_account(b, fa)).unwrap();
+			}
+			if both && k == n_blocks / 2 + 1 {
+				let other = if fa == "a1" { "a2" } else { "a1" };
+				r.s.with(0, |b, _| owner::set_active_account(b, other)).unwrap();
 			}
 			r.s.mine(0, 1);
 			r.learn(0);
@@ -185,6 +191,12 @@ fn main() {
 			(&*lc.get_mnemonic(None, ZeroingString::from("")).unwrap()).to_owned()
 		};
 		let c = r.s.add_wallet("w2", Some(&phrase), false);
+		// one restore in three: the user has already created an account before the first scan, under a
+		// name of the very form the scan generates for the accounts it discovers
+		let pre_label: Option<&str> = match r.p.below(6) { 0 => Some("account_2"), 1 => Some("account_1"), _ => None };
+		if let Some(l) = pre_label {
+			r.s.with(c, |b, m| owner::create_account_path(b, m, l)).unwrap();
+		}
 		let chain = r.chain_outs();
 		let orig = r.s.snapshot(0);
 		let res = guarded(|| owner::scan(r.s.wallets[c].inst.clone(), None, None, false, &None));
@@ -196,16 +208,45 @@ fn main() {
 		let rc2 = match &res2 { Err(_) => vec![2u64], Ok(Err(e)) => vec![1, err_class(e)], Ok(Ok(_)) => vec![0] };
 		let restored2 = r.s.snapshot(c);
 		out.line(&json!({"kind": "restore", "seed": hseed.to_string(), "batch": batch, "chain": chain,
-			"rc": rc, "orig": orig, "restored": restored, "rc2": rc2, "restored2": restored2, "accounts": accounts}));
+			"rc": rc, "orig": orig, "restored": restored, "rc2": rc2, "restored2": restored2, "accounts": accounts, "pre_label": pre_label, "both": both}));
 
 		// ---- (2) inject divergences into wallet 0 and repair by scanning
+		// two times in three a send is pending (initiated, answered, reserved, not finalized)
+		let mut pending = false;
+		if r.p.chance(2, 3) {
+			let args = InitTxArgs {
+				amount: r.p.range(1_000_000_000, 30_000_000_000),
+				minimum_confirmations: 1,
+				max_outputs: 500,
+				num_change_outputs: *r.p.pick(&[1u32, 2]),
+				selection_strategy_is_use_all: r.p.chance(1, 3),
+				..Default::default()
+			};
+			let res = guarded(|| -> Result<(), vharness::libwallet::Error> {
+				let s1 = r.s.with(0, |b, m| owner::init_send_tx(b, m, args, false))?;
+				let s2 = r.s.with(1, |b, m| foreign::receive_tx(b, m, &s1, None, false))?;
+				r.s.with(0, |b, m| owner::tx_lock_outputs(b, m, &s2))?;
+				Ok(())
+			});
+			pending = matches!(res, Ok(Ok(())));
+			r.learn(0);
+		}
+		// the scan starts at the first block, or (half of the time) at a height of its own
+		let tip = r.s.node.height();
+		let start: Option<u64> = match r.p.below(6) {
+			0 | 1 => None,
+			2 => Some(1),
+			_ => Some(r.p.range(2, tip.max(2))),
+		};
 		let outs: Vec<OutputData> = r.s.with(0, |b, _| b.iter().collect());
 		let mut injected = vec![];
 		for o in outs.iter() {
 			if !r.p.chance(1, 3) {
 				continue;
 			}
-			let kind = r.p.below(5);
+			// (5, 6: the record was confirmed at another height — e.g. on a branch since abandoned —
+			// and is wrongly Spent / Locked)
+			let kind = r.p.below(7);
 			let (a, ch) = key_pair(&o.key_id);
 			r.s.with(0, |b, m| {
 				let mut batch = b.batch(m).unwrap();
@@ -214,6 +255,10 @@ fn main() {
 					1 => { let mut x = o.clone(); x.status = OutputStatus::Spent; batch.save(x).unwrap(); }
 					2 => { let mut x = o.clone(); x.status = OutputStatus::Locked; batch.save(x).unwrap(); }
 					3 => { let mut x = o.clone(); x.status = OutputStatus::Unconfirmed; batch.save(x).unwrap(); }
+					5 => { let mut x = o.clone(); x.status = OutputStatus::Spent; x.height = x.height.saturating_sub(1).max(1);
+						if x.is_coinbase { x.lock_height = x.height + 3; } batch.save(x).unwrap(); }
+					6 => { let mut x = o.clone(); x.status = OutputStatus::Locked; x.height = x.height.saturating_sub(1).max(1);
+						if x.is_coinbase { x.lock_height = x.height + 3; } batch.save(x).unwrap(); }
 					_ => { let mut x = o.clone(); x.status = OutputStatus::Unspent; batch.save(x).unwrap(); }
 				}
 				batch.commit().unwrap();
@@ -224,14 +269,15 @@ fn main() {
 		let before = r.s.snapshot(0);
 		let view = r.node_view(0);
 		let chain = r.chain_outs();
-		let res = guarded(|| owner::scan(r.s.wallets[0].inst.clone(), None, None, del, &None));
+		let res = guarded(|| owner::scan(r.s.wallets[0].inst.clone(), None, start, del, &None));
 		let rc = match &res { Err(_) => vec![2u64], Ok(Err(e)) => vec![1, err_class(e)], Ok(Ok(_)) => vec![0] };
 		let after = r.s.snapshot(0);
-		let res2 = guarded(|| owner::scan(r.s.wallets[0].inst.clone(), None, None, del, &None));
+		let res2 = guarded(|| owner::scan(r.s.wallets[0].inst.clone(), None, start, del, &None));
 		let rc2 = match &res2 { Err(_) => vec![2u64], Ok(Err(e)) => vec![1, err_class(e)], Ok(Ok(_)) => vec![0] };
 		let after2 = r.s.snapshot(0);
 		out.line(&json!({"kind": "repair", "seed": hseed.to_string(), "batch": batch, "chain": chain, "del": del,
-			"injected": injected, "view": view, "rc": rc, "before": before, "after": after, "rc2": rc2, "after2": after2}));
+			"injected": injected, "view": view, "rc": rc, "before": before, "after": after, "rc2": rc2, "after2": after2,
+			"start": start, "pending": pending}));
 		drop(r);
 		let _ = std::fs::remove_dir_all(&dir);
 	}
